@@ -38,6 +38,10 @@ class Src(object):
     def getData(self, name, **kw):
         i = MODS.index(name)
         o = self.outcome[i]
+        # termination: with M modules and S sources a terminating work list asks at most a few times per (module, source);
+        # far beyond that the work list is not draining (reported as a violation instead of letting the path hang)
+        if len(self.log) > 150:
+            raise RuntimeError('compile() does not terminate: work list is not draining')
         if o == 1:
             self.log.append(('get', self.k, i, 'ok'))
             return MibInfo(name=name, path='src%d/%s' % (self.k, name), file=name + '.mib', mtime=10), (self.k, i)
